@@ -81,6 +81,13 @@ _L = {
     21: ("%%\n[0-9]+ \"INT\n\\+ PLUS\"\n", 0, 0),
 }
 
+# a grammar with 150 tokens (the CACHE INFORMATION comment lists every token: ~5 KB, far beyond any "tail" of the
+# output a skip test might be tempted to read) and a variant with the same tokens; token-map class 2
+_BIGT = ["T%d" % i for i in range(150)]
+_g(5, 1, 0, 0, 2, _H + "%%\nE: " + " | ".join("'%s' { %d }" % (t, i) for i, t in enumerate(_BIGT)) + " ;\n")
+_g(6, 1, 0, 0, 2, _H + "%%\nE: " + " | ".join("'%s' { %d }" % (t, i + 1) for i, t in enumerate(_BIGT)) + " ;\n")
+_L[3] = ("%%\n" + "".join("x%dy \"%s\"\n" % (i, t) for i, t in enumerate(_BIGT)) + "[ \\t\\n]+ ;\n", 1, 0)
+
 VALID_G = [0, 1, 2, 3, 4]
 CONF_G = [10, 11]
 WARN_G = [20, 21]
@@ -217,6 +224,20 @@ def targeted_histories():
             for v in range(len(vals)):
                 if v != DEFAULT[name]:
                     hs.append((mode, 0, 0, [("B",), ("S", name, v), ("B",), ("B",)]))
+    # every ordered pair of values of every option (a change between two non-default values must regenerate too:
+    # a cache text that is only searched for, not delimited, lets `Public` pass for `PublicCrate`)
+    for mode in ("P", "C"):
+        for name, _, vals in OPTS:
+            if mode == "P" and name in LEXER_ONLY:
+                continue
+            for a in range(len(vals)):
+                for b in range(len(vals)):
+                    if a != b and a != DEFAULT[name]:
+                        hs.append((mode, 0, 0, [("S", name, a), ("B",), ("S", name, b), ("B",), ("B",)]))
+    # a grammar with 150 tokens (paired with its own lexer only)
+    for mode in ("P", "C"):
+        hs.append((mode, 5, 3, [("B",), ("B",), ("S", "vis", 1), ("B",), ("B",)]))
+        hs.append((mode, 5, 3, [("B",), ("Y", 6), ("B",), ("B",), ("Y", 6), ("B",), ("Y", 5), ("B",)]))
     for mode in ("P", "C"):
         hs.append((mode, 0, 0, [("B",), ("Y", 30), ("B",), ("Y", 1), ("B",)]))            # syntax error after a good build
         hs.append((mode, 0, 0, [("B",), ("Y", 10), ("B",), ("S", "eoc", 0), ("B",), ("S", "eoc", 1), ("B",)]))
